@@ -1,6 +1,8 @@
 import BoltonsVerif.C13.Proofs
 import BoltonsVerif.C13.SessionProofs
 import BoltonsVerif.C13.Hygiene
+import BoltonsVerif.C13.Text
+import BoltonsVerif.Generated.C13_Text
 /-
 C13 — property theorems for the model of `funcutils.wraps / update_wrapper /
 FunctionBuilder` (statements, short derivations from `Proofs.lean`, non-vacuity
@@ -570,6 +572,34 @@ theorem callee_reaches_wrapper (cn : Nat → Name) (hinj : ∀ i j, cn i = cn j 
     exact Or.inr he
   · exact hk _
 
+/-! ## the generated source, character by character (`Text.lean`)
+
+`FB.invocationSpecs` drops the ITEM `*`; the code removes CHARACTERS: `_KWONLY_MARKER.sub('', sig)`
+with the regex `\*\s*,\s*` on `'(' + ', '.join(items) + ')'`, then `sig[1:-1]`. -/
+
+/-- on the text of any builder state - any names (no `*`, no `,`, no white space in a name), any
+    number of parameters of every kind - the regex substitution yields exactly the text of the
+    invocation items: the bare `*` and its separator go, the star of `*args`, the stars of `**kw`,
+    every name, every `k=k` and every other separator stay -/
+theorem invocation_text (sp : Name → List Char) (hsp : ∀ n, NameText (sp n)) (fb : FB) :
+    scan .norm ('(' :: (renderItems sp (formatArgspec fb.args fb.varargs fb.varkw fb.kwonlyargs true) ++ [')'])) =
+      '(' :: (renderItems sp fb.invocationSpecs ++ [')']) := by
+  rw [scan_parens, scan_render sp hsp _ (starNotLast_format _ _ _ _ _)]
+  rfl
+
+/-- the same substitution leaves the text of a parameter list WITH `*args` alone, and more
+    generally every text without a bare star -/
+theorem text_without_marker_unchanged (sp : Name → List Char) (hsp : ∀ n, NameText (sp n)) (l : List Spec)
+    (hl : ∀ s ∈ l, notBareStar s = true) :
+    scan .norm (renderItems sp l) = renderItems sp l := by
+  rw [scan_render sp hsp l (starNotLast_of_allNB hl), List.filter_eq_self.mpr hl]
+
+/-- the character-level telling against the source as it is NOW: for each of the 36 builder
+    shapes of the regenerated table, `'(' + ', '.join(items) + ')'` is the text `get_sig_str`
+    returned, and the regex scanner applied to it, minus the parentheses, is the text
+    `get_invocation_str` returned (modulo white space; evaluated by the kernel) -/
+theorem generated_text_agrees : Gen.textTable.all textEntryOk = true := by decide +kernel
+
 /-! ## several uses in one process (sessions)
 
 `Session.lean`: a heap of dict objects; `from_func` allocates copies, the builder's mutators
@@ -688,6 +718,15 @@ example : (FB.fromFunc { exF with name := 90, args := [1, 91, 3] }).callee (fun 
 -- inject p2 (default 12), p4 (keyword-only); expect p6 (required) and p8=48: p1, p3 keep place and default
 example : (updateWrapper exF [2, 4] [(6, none), (8, some 48)]).toOption.map (fun w => sigOf w) =
     some ⟨[(1, none), (6, none), (3, some 13), (8, some 48)], some 7, [(5, some 25)], some 9⟩ := by decide
+
+-- the regex on concrete text: `*, ` goes; `*args,` and `**kw` stay; white space around the comma is eaten
+example : scan .norm "(a, b, *, k=k, j=j, **kw)".toList = "(a, b, k=k, j=j, **kw)".toList := by decide
+example : scan .norm "(a, *args, k=k, **kw)".toList = "(a, *args, k=k, **kw)".toList := by decide
+example : scan .norm "(* \t ,  k=k)".toList = "(k=k)".toList := by decide
+example : scan .norm "(a, *)".toList = "(a, *)".toList := by decide
+example : NameText "kwargs".toList := ⟨by decide, by decide⟩
+example : renderItems (fun n => ['p', Char.ofNat (48 + n)]) (FB.fromFunc exF).invocationSpecs =
+    "p1, p2, p3, *p7, p4=p4, p5=p5, **p9".toList := by decide
 
 /-- the same function wrapped three times, the second time with its keyword-only `p5=25`
     injected; then the user edits the second wrapper: nobody else notices -/
